@@ -436,6 +436,7 @@ class Heap:
 
 LIST_FUNCS = {}
 LIST_ELEM_CLASSES = {}
+REF_FIELD_CLASSES = {}  # "h.<field>:ref" -> (classes, maybe_none)
 
 
 def list_funcs(field):
@@ -463,6 +464,10 @@ def _elem_facts(t):
             if field in LIST_ELEM_CLASSES:
                 body.append(CLASSES.classset_term(t, LIST_ELEM_CLASSES[field]))
             facts = [z3.Implies(z3.And(0 <= k, k < llen(owner)), z3.And(body)), llen(owner) >= 0]
+    elif t.num_args() == 1 and t.decl().name() in REF_FIELD_CLASSES:
+        classes, maybe = REF_FIELD_CLASSES[t.decl().name()]
+        cs = CLASSES.classset_term(t, classes)
+        facts = [z3.Or(t == NONE, cs) if maybe else z3.And(t != NONE, cs)]
     _elem_fact_cache[key] = (t, facts, dict(LIST_ELEM_CLASSES))
     return facts
 
